@@ -188,6 +188,16 @@ var docCmds = []string{
 
 // incl. values that overflow when turned into nanoseconds: 2^55 s and 2^56 s become 0, 9223372037 s becomes negative
 var nums = []string{"0", "1", "-1", "2", "10", "00", "4294967296", "99999999999999999999", "1e3", "", " ", "36028797018963968", "9223372037", "72057594037927936", "18446744073709551615", "9223372036854775807"}
+
+func cfgAggRegex(r *mon.Rng) string {
+	if r.Chance(1, 3) {
+		return r.Pick(aggRegexes)
+	}
+	return r.Pick([]string{"^servers\\.(dc[0-9]+)\\.(app|proxy)[0-9]+\\.(.*)", "(.*)", "^foo", ".*"})
+}
+
+// regexes for aggregations: ordinary, match-all in its spellings, degenerate and invalid ones
+var aggRegexes = []string{"^foo", "(.*)", "^(a", "", "^servers\\.(.*)", ".*", "^.*$", "^.*", ".", ".+", "()", "^", "$", "(?i)FOO", "a{2,1}", "[", "(?P<n>foo)", "foo|", "|", "\\", "^servers\\.(.*)\\.(.*)$", "x*"}
 var smallNums = []string{"0", "1", "2", "10", "00", "1000", "-1", "", "1e3"}
 var funcs = []string{"sum", "avg", "min", "max", "last", "count", "delta", "derive", "stdev", "percentiles", "nosuch", ""}
 
@@ -254,7 +264,7 @@ func adminCmd(r *mon.Rng, st *state) string {
 	case 2: // aggregation with boundary parameters
 		k := fmt.Sprintf("agg%d", st.n)
 		st.n++
-		return fmt.Sprintf("addAgg %s regex=%s %s %s %s%s", r.Pick(funcs), r.Pick([]string{"^foo", "(.*)", "^(a", "", "^servers\\.(.*)"}), "out."+k+r.Pick([]string{"", ".$1", ".$9", ".${1}"}),
+		return fmt.Sprintf("addAgg %s regex=%s %s %s %s%s", r.Pick(funcs), r.Pick(aggRegexes), "out."+k+r.Pick([]string{"", ".$1", ".$9", ".${1}"}),
 			r.Pick(nums), r.Pick(nums), r.Pick([]string{"", " cache=true", " cache=true", " cache=false", " cache=maybe"})+r.Pick([]string{"", " dropRaw=true", " dropRaw=false"}))
 	case 3: // carbon route with boundary destination options
 		k := fmt.Sprintf("r%d", st.n)
@@ -396,7 +406,7 @@ func genConfig(r *mon.Rng, dir string, p ports, st *state) string {
 		b.WriteString("[[aggregation]]\n")
 		fmt.Fprintf(&b, "function = %s\n", q(r.Pick(funcs[:10])))
 		if !r.Chance(1, 14) {
-			fmt.Fprintf(&b, "regex = %s\n", q(r.Pick([]string{"^servers\\.(dc[0-9]+)\\.(app|proxy)[0-9]+\\.(.*)", "(.*)", "^foo"})))
+			fmt.Fprintf(&b, "regex = %s\n", q(cfgAggRegex(r)))
 		}
 		fmt.Fprintf(&b, "format = %s\ninterval = %d\nwait = %d\n", q(r.Pick([]string{"agg.$1", "aggregates.$1.$2.$3.sum", "x"})), r.PickInt([]int{0, 1, 10, 60, 60, 10, 5, 30, 1, -1, 10, 60, 5, 30, 10, 36028797018963968, 9223372037}), r.PickInt([]int{0, 1, 20, 20, 120, -5, 20, 120, 36028797018963968}))
 		if r.Bool() {
@@ -1129,6 +1139,6 @@ func main() {
 	res.Set("config_rejection_reasons", rejections)
 	res.Floor("children", ran, n)
 	st, _ := res.Extra["configs_started"].(int)
-	res.Floor("configs_started", st, n/4)
+	res.Floor("configs_started", st, n/6)
 	res.Write()
 }
